@@ -1102,6 +1102,7 @@ func genFunctionWrapper(n *node) func(*frame) reflect.Value {
 				// evaluation which was not cancelled, may be called long after its wrapper
 				// was created, possibly after a cancelled evaluation: the call belongs to
 				// the current run.
+				verifGoStart(n.interp, 3)
 				id = n.interp.callID()
 			}
 			fr := newFrame(f, len(def.types), id)
@@ -2081,6 +2082,7 @@ func getFunc(n *node) {
 				// A closure created by an evaluation which was not cancelled may be called
 				// after the cancellation of another one: the call belongs to the current
 				// run, not to the one which created the closure.
+				verifGoStart(n.interp, 3)
 				id = n.interp.callID()
 			}
 			fr2 := newFrame(fr, len(n.types), id)
